@@ -169,23 +169,34 @@ def run_ro(w, S, spec):
     out = []
     sel = spec.get("select")
     for name, cbs, runner in ro_operations(w, S, uni):
-        def run_with(faults):
-            wrapped = {c: (Faulty(fn, faults.get(c, 0)) if fn is not None else None) for c, fn in cbs.items()}
+        def fresh_wrappers():
+            return {c: (Faulty(fn, 0) if fn is not None else None) for c, fn in cbs.items()}
+
+        def run_with(wrapped, faults):
+            for c, x in wrapped.items():
+                if x is not None:
+                    x.k, x.n = faults.get(c, 0), 0
             ans = guarded(lambda: norm(w, runner(wrapped)))
             return ans, {c: (x.n if x else 0) for c, x in wrapped.items()}
+
+        w0 = fresh_wrappers()
         pre = snapshot(w, extra)
-        clean, counts = run_with({})
+        clean, counts = run_with(w0, {})
         post = snapshot(w, extra)
-        again, _ = run_with({})
+        again, _ = run_with(w0, {})
         out.append({"kind": "ro", "op": name, "cb": "", "k": 0, "pre": pre, "post": post, "clean": clean, "again": again})
         for cbname in cbs:
             for k in range(1, counts[cbname] + 1):
                 if sel is not None and P.h(name, cbname, k, S["ends"]) % sel:
                     continue
+                # a NEW set of callables for every fault point (so that no memo entry exists for them yet: the faulted
+                # call really runs), and the SAME objects, disarmed, for the repeated call (a memo keyed by the callable
+                # must not serve what the aborted call left behind)
+                wk = fresh_wrappers()
                 pre = snapshot(w, extra)
-                faulted, _ = run_with({cbname: k})
+                faulted, _ = run_with(wk, {cbname: k})
                 post = snapshot(w, extra)
-                again, _ = run_with({})
+                again, _ = run_with(wk, {})
                 out.append({"kind": "ro", "op": name, "cb": cbname, "k": k, "pre": pre, "post": post, "clean": clean,
                             "again": again, "faulted": faulted})
     return out
